@@ -133,11 +133,11 @@ def expand_runs(runs, n):
 
 
 def usage_value(sc, i):
-    """usage of cell i (a dyadic rational as float) before the overrides"""
+    """usage of cell i (a dyadic rational as float) before the overrides: constant within a week, five levels
+    (run-length friendly: the case literals of the Coq correspondence stay small)"""
     base = sc.get("usage_base", 8.0)
-    if sc["family"] == "hourly":
-        return base + 0.25 * ((i // 24) % 5)          # constant within a day: run-length friendly
-    return base + 0.5 * ((i * 7) % 13)
+    per_week = 24 * 7 if sc["family"] == "hourly" else 7
+    return base + 0.5 * ((i // per_week) % 5)
 
 
 def usage_cells(sc, n):
